@@ -44,6 +44,7 @@ func init() {
 }
 
 type prodAnchors struct {
+	p         *core.Prog
 	producer  *types.Named
 	sp        *types.Named // streamProducer
 	produce   *ssa.Function
@@ -52,10 +53,12 @@ type prodAnchors struct {
 	nextF     *types.Var
 	mapF      *types.Var
 	errs      []string
+	// set when the batch id of the emitted message derives from a package-level variable instead of a producer field
+	batchFromGlobal string
 }
 
 func newProdAnchors(p *core.Prog) *prodAnchors {
-	a := &prodAnchors{}
+	a := &prodAnchors{p: p}
 	pk := p.Pkg(pkgArrowRecord)
 	if pk == nil {
 		a.errs = append(a.errs, "arrow_record not loaded")
@@ -95,6 +98,9 @@ func newProdAnchors(p *core.Prog) *prodAnchors {
 			}
 			if core.FieldName(fa) == "BatchId" {
 				core.BackSlice(s.Val, func(v ssa.Value) bool {
+					if g, ok := v.(*ssa.Global); ok && a.batchFromGlobal == "" {
+						a.batchFromGlobal = g.Name()
+					}
 					if f2 := core.LoadedField(v); f2 != nil && core.NamedOf(f2.X.Type()) == a.producer {
 						a.batchF = core.FieldVar(f2)
 						return false
@@ -177,6 +183,10 @@ func newProdAnchors(p *core.Prog) *prodAnchors {
 }
 
 func (a *prodAnchors) ok(c *core.Ctx) bool {
+	if a.batchF == nil && a.batchFromGlobal != "" && a.produce != nil {
+		c.Viol("batch-id|source", a.p.Pos(a.produce.Pos()), core.FuncName(a.produce), "the batch id of the emitted message comes from the package-level variable "+a.batchFromGlobal+", not from a field of the producer: with two producers in one process the ids of each have gaps and a producer created later does not start at zero")
+		return false
+	}
 	if len(a.errs) > 0 {
 		c.Undecided("anchors", "?", "", "cannot resolve producer anchors: "+strings.Join(a.errs, "; "))
 		return false
